@@ -135,6 +135,9 @@ class Ctx:
         self.mc = {f: field_index(mc, "Request", f) for f in ("rp", "user", "pub_key_cred_params", "exclude_list", "options", "pin_auth", "extensions")}
         self.opt = {f: field_index(mc, "Options", f) for f in ("rk", "up", "uv")}
         self.pk = {f: field_index(pk, "Passkey", f) for f in ("key", "credential_id", "rp_id", "user_handle", "counter", "extensions")}
+        self.pk_all = dict(self.pk)
+        if sorted(self.pk_all.values()) != list(range(len(self.pk_all))):
+            self.pk_all = {}
         self.rp_id_idx = field_index(mc, "PublicKeyCredentialRpEntity", "id")
         self.input_in = {}      # fn key -> suffix of the `in` term of the request (e.g. '^.1')
         self.input_place = {}   # fn key -> place holding the request while the coroutine runs
@@ -640,10 +643,30 @@ def counter_checks(paths, ctx, solver):
                 old = None
                 if written is None:
                     raise Shape("cannot find the counter inside the value passed to update_credential")
-                ok_shape = is_old_plus_one(written, p)
-                if not ok_shape:
+                step = counter_step(written, p)
+                if step is None:
                     F.append(Finding("C08", "ga.counter-step", "the counter written back is %s, not old + 1" % tstr(written)[:100], ga_scenario(p, ctx),
                                      lambda o: [c for c in o["log"] if c["call"] == "update"] and [c for c in o["log"] if c["call"] == "update"][0]["counter"] != 8, p))
+                else:
+                    # for every old value below the maximum the new value is old + 1; at the maximum a successful step never yields a smaller value
+                    val, okc = step_smt(step, "c")
+                    decls = ["(declare-const c (_ BitVec 32))"]
+                    for role, asserts, text in (
+                            ("ga.counter-step", [okc, "(bvult c #xffffffff)", "(not (= %s (bvadd c #x00000001)))" % val], "below the maximum the counter written back is not old + 1"),
+                            ("ga.counter-wraps", [okc, "(= c #xffffffff)", "(bvult %s c)" % val], "at the maximum the counter wraps to a smaller value")):
+                        if role == "ga.counter-wraps" and step[0] == "plain":
+                            continue      # decided by the overflow-assertion query above
+                        verdict, model = solver.check(decls, asserts, want_model=True)
+                        q += 1
+                        if verdict == "sat":
+                            from .smt import bv_value
+                            cv = bv_value(model.get("c", "")) if model else None
+                            cv = 7 if cv is None else cv
+                            F.append(Finding("C08", role, "%s (%s by %d; counter = %d)" % (text, step[0], step[1], cv), ga_scenario(p, ctx, counter=cv),
+                                             lambda o, cv=cv: isinstance(o["result"], dict) and "ok" in o["result"] and
+                                             (o["result"]["ok"]["counter"] != cv + 1 if cv < 2 ** 32 - 1 else (o["result"]["ok"]["counter"] or 0) < cv), p))
+                        elif verdict != "unsat":
+                            raise Shape("solver answered %s on the counter-step query" % verdict)
                 if tstr(reported) != tstr(written):
                     F.append(Finding("C08", "ga.reported-counter-differs", "reported counter %s differs from the stored one %s" % (tstr(reported)[:60], tstr(written)[:60]),
                                      ga_scenario(p, ctx), lambda o: "ok" in o["result"] and o["result"]["ok"]["counter"] != [c for c in o["log"] if c["call"] == "update"][0]["counter"], p))
@@ -659,6 +682,42 @@ def counter_of(passkey_term, ctx):
                 return v
         return ("proj", t[1], ".%d" % ctx.pk["counter"])
     return None
+
+
+def counter_step(t, p=None):
+    """how the new counter is computed from the old one `c` (32-bit): -> (kind, n) with kind in
+    'checked' (fails on overflow) | 'plain' (overflow assertion: panics / wraps) | 'saturating' | 'wrapping', or None"""
+    if not isinstance(t, tuple) or not t:
+        return None
+    if t[0] == "ctor" and t[1] == "Some" and t[2]:
+        return counter_step(t[2][0], p)
+    if t[0] in ("op", "checked", "saturating", "wrapping") and t[1] == "Add" and t[3][0] == "const":
+        m = re.match(r"(\d+)_u32$", t[3][1])
+        if m:
+            return ("plain" if t[0] == "op" else t[0], int(m.group(1)))
+    if t[0] == "proj" and t[2] in ("@Ok.0", "@Some.0", "@Continue.0"):
+        return counter_step(t[1], p)
+    if t[0] == "branch":
+        return counter_step(t[1], p)
+    if t[0] == "ret" and p is not None and t[2] in ("Option::ok_or", "Option::ok_or_else", "Result::map_err", "Option::map", "Option::unwrap_or", "Option::unwrap"):
+        return counter_step(p.events[t[1]]["args"][0], p)
+    return None
+
+
+def step_smt(step, c):
+    """(value, succeeds) as SMT-LIB terms over the 32-bit variable named c"""
+    kind, n = step
+    add = "(bvadd %s (_ bv%d 32))" % (c, n)
+    ovf = "(bvult %s %s)" % (add, c)
+    if kind == "checked":
+        return add, "(not %s)" % ovf
+    if kind == "plain":
+        return add, "(not %s)" % ovf          # the overflow case is C08's own question (panic / wrap)
+    if kind == "saturating":
+        return "(ite %s #xffffffff %s)" % (ovf, add), "true"
+    if kind == "wrapping":
+        return add, "true"
+    raise Shape("unknown counter step %r" % (step,))
 
 
 def is_old_plus_one(t, p=None):
@@ -1543,15 +1602,37 @@ def check_concurrent_counters(ga_paths, fns_tokio, ctx, solver):
                     ok = False
         per_call[lock] = ok
     # (3)
+    upd0 = calls(gap[0], "CredentialStore::update_credential")
+    written = counter_of(upd0[0][1]["args"][1], ctx)
+    step = counter_step(written, gap[0]) if written is not None else None
+    if step is None:
+        raise Shape("cannot express the counter written back as a function of the counter read: %s" % tstr(written)[:100])
+    nA, okA = step_smt(step, "vA")
+    nB, okB = step_smt(step, "vB")
     decls = ["(declare-const c (_ BitVec 32))"] + ["(declare-const %s Int)" % t for t in ("tRA", "tWA", "tRB", "tWB")] + \
             ["(declare-const vA (_ BitVec 32))", "(declare-const vB (_ BitVec 32))"]
-    one = "(_ bv1 32)"
-    asserts = ["(distinct tRA tWA tRB tWB)", "(< tRA tWA)", "(< tRB tWB)"] + ["(and (>= %s 0) (<= %s 3))" % (t, t) for t in ("tRA", "tWA", "tRB", "tWB")] + [
-        "(= vA (ite (< tWB tRA) (bvadd vB %s) c))" % one,
-        "(= vB (ite (< tWA tRB) (bvadd vA %s) c))" % one,
-        "(bvult c #xfffffffe)",
-        "(= (bvadd vA %s) (bvadd vB %s))" % (one, one)]
+    common = ["(distinct tRA tWA tRB tWB)", "(< tRA tWA)", "(< tRB tWB)"] + ["(and (>= %s 0) (<= %s 3))" % (t, t) for t in ("tRA", "tWA", "tRB", "tWB")] + [
+        "(= vA (ite (< tWB tRA) %s c))" % nB,
+        "(= vB (ite (< tWA tRB) %s c))" % nA,
+        okA, okB,                                  # both ceremonies succeed
+        "(= %s %s)" % (nA, nB)]                    # and report the same counter
+    # (3a) one ceremony after the other: must be impossible (a different failure than the overlapping one below)
+    verdict, model = solver.check(decls, common + ["(or (< tWA tRB) (< tWB tRA))"], want_model=True)
+    nq = 1
+    if verdict == "sat":
+        from .smt import bv_value
+        cv = bv_value(model.get("c", "")) if model else None
+        cv = 2 ** 32 - 2 if cv is None else cv
+        F.append(Finding("C19", "sequential.assert-assert.duplicate-counter",
+                         "two assertions with the same credential, one after the other, both succeed and report the same counter (step: %s by %d; stored counter %d)" % (step[0], step[1], cv),
+                         [{"op": "concurrent_assert", "counter": cv, "lock": lock, "sequential": True} for lock in ("mutex", "rwlock")],
+                         lambda o: len(o["result"]["counters"]) == 2 and None not in o["result"]["counters"] and o["result"]["counters"][0] == o["result"]["counters"][1], gap[0]))
+    elif verdict != "unsat":
+        raise Shape("solver answered %s on the sequential query" % verdict)
+    # (3b) overlapping ceremonies
+    asserts = common + ["(not (or (< tWA tRB) (< tWB tRA)))", "(bvult c #xfffffff0)"]
     verdict, model = solver.check(decls, asserts, want_model=True)
+    nq += 1
     if verdict == "sat":
         for lock, percall in per_call.items():
             if not percall:
@@ -1564,4 +1645,860 @@ def check_concurrent_counters(ga_paths, fns_tokio, ctx, solver):
                              lambda o: len(o["result"]["counters"]) == 2 and None not in o["result"]["counters"] and o["result"]["counters"][0] == o["result"]["counters"][1], gap[0]))
     elif verdict != "unsat":
         raise Shape("solver answered %s on the interleaving query" % verdict)
-    return F, 1 + nwrap, None
+    return F, nq + nwrap, None
+
+
+# ---- C06: secrets never flow into anything handed back ------------------------------------------------
+
+def field_index_any(src, struct, field):
+    """like field_index, for structs of any visibility"""
+    m = re.search(r"(?:pub(?:\([a-z]+\))? )?struct %s\s*\{(.*?)\n\s*\}" % re.escape(struct), src, re.S)
+    if not m:
+        raise Shape("struct %s not found in source" % struct)
+    names = re.findall(r"^\s*(?:pub(?:\([a-z]+\))? )?([a-z_0-9]+):\s", m.group(1), re.M)
+    if field not in names:
+        raise Shape("field %s not in struct %s (%s)" % (field, struct, names))
+    return names.index(field)
+
+
+COSE_KEY_FIELDS = ["kty", "key_id", "alg", "key_ops", "base_iv", "params"]   # coset 0.3 `CoseKey`, declaration order
+SIGN_CALLS = ("::sign", "::try_sign", "::sign_recoverable")
+
+
+class Taint:
+    """does a term depend on a secret other than through a declassifying call?  `classify(t)` -> 'secret' |
+    'public' (stop here) | None (look inside); results of calls are followed into their arguments and into
+    what their reference arguments pointed to at the time of the call"""
+
+    def __init__(self, p, classify, declass, fields_of=None, fns=None):
+        self.p = p
+        self.fields_of = fields_of
+        self.fns = fns
+        self.classify = classify
+        self.declass = tuple(declass)
+        self.memo = {}
+        self.trail = []
+
+    def walk(self, t, depth=0):
+        if not isinstance(t, (tuple, list)) or depth > 40:
+            return []
+        try:
+            key = (t, tuple(self.trail[-1:]))
+            if key in self.memo:
+                return self.memo[key]
+        except TypeError:
+            key = None
+        if key is not None:
+            self.memo[key] = []
+        out = self._walk(t, depth)
+        if key is not None:
+            self.memo[key] = out
+        return out
+
+    def _walk(self, t, depth):
+        if isinstance(t, tuple) and t and isinstance(t[0], str):
+            c = self.classify(t)
+            if c == "secret":
+                return [tstr(t)[:100] + " <- " + " <- ".join(self.trail[-4:])]
+            if c == "public":
+                return []
+            if t[0] == "ret" and len(t) >= 3 and isinstance(t[1], int) and t[1] < len(self.p.events):
+                if str(t[2]).endswith(self.declass):
+                    return []
+                ev = self.p.events[t[1]]
+                out = []
+                if str(t[2]).endswith("Option::and") and len(ev.get("args", [])) == 2:
+                    # `a.and(b)` is b or None: of `a` only its presence (one bit) shows
+                    pv = ev.get("pointees", {}).get(1)
+                    return self.walk(ev["args"][1], depth + 1) + (self.walk(pv[1], depth + 1) if pv else [])
+                self.trail.append("%d:%s" % (t[1], t[2]))
+                for a in ev.get("args", []):
+                    out += self.walk(a, depth + 1)
+                for _, v in ev.get("pointees", {}).values():
+                    out += self.walk(v, depth + 1)
+                for v in getattr(self.p, "heap", {}).get(t[1], ()):
+                    out += self.walk(v, depth + 1)
+                self.trail.pop()
+                return out
+            if t[0] == "pollres" or t[0] == "await":
+                return self.walk(t[-1], depth + 1)
+            if t[0] in ("isvariant", "discr"):
+                # which variant a value has: one bit, not the value
+                return []
+            if t[0] == "errof":
+                # the error a callee reports: a status code (one byte), which cannot carry a 32-byte secret
+                return []
+            if t[0] == "closure":
+                return self._closure(t, depth)
+            if t[0] == "proj" and isinstance(t[1], tuple) and t[1] and t[1][0] == "struct" and self.fields_of is not None:
+                # a field of a struct literal: only that field's value matters
+                names = self.fields_of(t[1][1])
+                m = re.match(r"^\.(\d+)(.*)$", t[2])
+                if names and m and int(m.group(1)) < len(names):
+                    v = dict(t[1][2]).get(names[int(m.group(1))])
+                    if v is not None:
+                        return self.walk(("proj", v, m.group(2)) if m.group(2) else v, depth + 1)
+        out = []
+        for x in t:
+            if isinstance(x, (tuple, list)):
+                out += self.walk(x, depth + 1)
+        return out
+
+
+def _taint_closure(self, t, depth):
+    """a closure value: what it returns depends on the secrets it captured only as far as its body lets them through"""
+    from .executor import Executor
+    caps = t[2] if len(t) > 2 else ()
+    fields = [c for c in caps if not (isinstance(c, tuple) and c and c[0] == "pointee")]
+    pointees = {c[1]: c[2] for c in caps if isinstance(c, tuple) and c and c[0] == "pointee"}
+    secret_idx = {}
+    for i, c in enumerate(fields):
+        v = pointees[c[1]] if isinstance(c, tuple) and c and c[0] == "ref" and c[1] in pointees else c
+        leaks = self.walk(v, depth + 1)
+        if leaks:
+            secret_idx[i] = leaks[0]
+    if not secret_idx:
+        return []
+    f = _closure_fn(self.fns, t) if self.fns else None
+    if f is None:
+        return list(secret_idx.values())
+    root = "_1^" if re.search(r"\(_1: &", f.sig) else "_1"
+    out = []
+    for q in Executor(f, follow_yields=False).run():
+        if not q.end or q.end[0] == "unsupported":
+            return list(secret_idx.values())
+        if q.end[0] != "return":
+            continue
+
+        def classify_inner(u):
+            name = None
+            if u[0] in ("in", "ref") and isinstance(u[1], str):
+                name = u[1]
+            elif u[0] == "proj" and isinstance(u[1], tuple) and u[1] and u[1][0] == "in" and isinstance(u[1][1], str):
+                name = u[1][1] + u[2]
+            if name is not None and (name == root or name.startswith(root + ".") or name.startswith(root + "^")):
+                m = re.match(r"^\.(\d+)", name[len(root):])
+                if m is None:
+                    return "secret"
+                return "secret" if int(m.group(1)) in secret_idx else "public"
+            return None
+        tw = Taint(q, classify_inner, self.declass, self.fields_of, self.fns)
+        for l in tw.walk(q.end[1]):
+            out.append(l + " [inside %s, captured: %s]" % (t[1][:70], list(secret_idx.values())[0][:60]))
+    return out
+
+
+Taint._closure = _taint_closure
+
+
+def _fields_of(ctx):
+    order = sorted(ctx.pk_all, key=lambda k: ctx.pk_all[k])
+
+    def f(struct_name):
+        return order if struct_name.split("::")[-1] == "Passkey" else None
+    return f
+
+
+def _passkey_field_class(rest, ctx):
+    """rest: field path below a Passkey value ('' = the whole credential)"""
+    if rest == "":
+        return "secret"
+    m = re.match(r"^\.(\d+)(.*)$", rest)
+    if not m:
+        return "secret"
+    idx, more = int(m.group(1)), m.group(2)
+    if idx == ctx.pk["extensions"]:
+        return "secret"
+    if idx == ctx.pk["key"]:
+        m2 = re.match(r"^\.(\d+)", more)
+        if m2 and int(m2.group(1)) != COSE_KEY_FIELDS.index("params"):
+            return "public"
+        return "secret"
+    return "public"
+
+
+def _leak_scan_finding(role, text, p, pattern):
+    """every C06 finding is confirmed by the same native scan: real ceremonies, every rendering searched"""
+    return Finding("C06", role, text, {"op": "leak_scan"},
+                   lambda o: o["result"].get("scanner_selftest") is True and any(re.search(pattern, l) for l in o["result"]["leaks"]), p)
+
+
+def check_secrecy_get_assertion(paths, ctx):
+    """results and errors of get_assertion depend on the looked-up credential's key / extension secrets only
+    through the signing call and the extension processing (C09 decides what that produces)"""
+    F = []
+    ctx.cur = "ga"
+    n = 0
+    for p in paths:
+        res = result_of(p)
+        if res is None:
+            continue
+        find = calls(p, "CredentialStore::find_credentials")
+        if not find:
+            continue
+        pkc = calls(p, "private_key_from_cose_key")
+        bases = []
+        for _, e in pkc:
+            _, cv = _pointee(e, 0)
+            t = chase(cv) if cv is not None else None
+            suf = ".%d" % ctx.pk["key"]
+            if t is not None and t[0] == "proj" and t[2].endswith(suf):
+                bases.append((t[1], t[2][:-len(suf)]))
+        lookup = ("await", find[0][1]["ret"])
+
+        def classify(t, bases=bases, lookup=lookup):
+            if t == lookup:
+                return "secret"
+            for root, suffix in bases:
+                if t == root:
+                    return "secret"
+                if t[0] == "proj" and t[1] == root:
+                    if not t[2].startswith(suffix):
+                        return "secret" if suffix.startswith(t[2]) else None
+                    return _passkey_field_class(t[2][len(suffix):], ctx)
+            if t[0] == "conv" and isinstance(t[1], tuple) and len(t[1]) == 2 and t[1][0].split("::")[-1].lstrip("&") == "Passkey" \
+                    and t[1][1].split("::")[-1] == "PublicKeyCredentialDescriptor":
+                return "public"       # the conversion is checked separately (only the id flows)
+            if t[0] == "ret" and str(t[2]) == "private_key_from_cose_key":
+                return "secret"
+            return None
+        tw = Taint(p, classify, SIGN_CALLS + ("extensions::get_extensions", "Authenticator::get_extensions", "Authenticator::check_user"), _fields_of(ctx), getattr(ctx, "fns", None))
+        kind, payload = res
+        leaks = tw.walk(payload) if payload is not None else []
+        n += 1
+        if leaks:
+            F.append(_leak_scan_finding("ga.%s-depends-on-secret" % ("response" if kind == "Ok" else "error"),
+                                        "get_assertion's %s value depends on the credential's secrets outside signing / extension processing: %s" %
+                                        ("Ok" if kind == "Ok" else "Err", leaks[0]), p, r"ctap2\.get_assertion|webauthn\.authenticate"))
+    return F, n
+
+
+def check_secrecy_make_credential(paths, ctx, which="mc"):
+    """results and errors of make_credential (and U2F register) do not depend on the generated private key, the
+    private half of the COSE key pair or the credential part of the extension outputs"""
+    F = []
+    lib = ctx.src["passkey-authenticator/src/lib.rs"]
+    ext = ctx.src["passkey-authenticator/src/authenticator/extensions.rs"]
+    pub_idx = field_index_any(lib, "CoseKeyPair", "public")
+    cred_idx = field_index_any(ext, "MakeExtensionOutputs", "credential")
+    n = 0
+    for p in paths:
+        res = result_of(p)
+        if res is None:
+            continue
+
+        def classify(t):
+            if t[0] == "ret" and str(t[2]).endswith("SecretKey::random"):
+                return "secret"
+            if t[0] == "ret" and str(t[2]).endswith("CoseKeyPair::from_secret_key"):
+                return "secret"
+            if t[0] == "proj" and t[1][0] == "ret" and str(t[1][2]).endswith("CoseKeyPair::from_secret_key"):
+                return "public" if re.match(r"^\.%d(\.|$|@)" % pub_idx, t[2]) else "secret"
+            if t[0] == "ret" and str(t[2]).endswith("make_extensions"):
+                return "secret"
+            if t[0] == "proj" and t[1][0] == "ret" and str(t[1][2]).endswith("make_extensions"):
+                m = re.match(r"^@Ok\.0\.(\d+)", t[2])
+                if not m:
+                    return "secret" if t[2] in ("@Ok", "@Ok.0") else None
+                return "secret" if int(m.group(1)) == cred_idx else "public"
+            return None
+        tw = Taint(p, classify, SIGN_CALLS + ("::verifying_key",), _fields_of(ctx), getattr(ctx, "fns", None))
+        kind, payload = res
+        leaks = tw.walk(payload) if payload is not None else []
+        n += 1
+        if leaks:
+            F.append(_leak_scan_finding("%s.%s-depends-on-secret" % (which, "response" if kind == "Ok" else "error"),
+                                        "%s's %s value depends on the new credential's secrets: %s" % ("make_credential" if which == "mc" else "U2F register",
+                                                                                                      "Ok" if kind == "Ok" else "Err", leaks[0]), p,
+                                        r"ctap2\.make_credential|webauthn\.register" if which == "mc" else r"u2f\.register"))
+    return F, n
+
+
+def check_secrecy_u2f_authenticate(paths, ctx):
+    F = []
+    n = 0
+    for p in paths:
+        res = result_of(p)
+        find = calls(p, "CredentialStore::find_credentials")
+        if res is None or not find:
+            continue
+        lookup = ("await", find[0][1]["ret"])
+
+        def classify(t, lookup=lookup):
+            if t == lookup:
+                return "secret"
+            if t[0] == "ret" and str(t[2]).endswith("private_key_from_cose_key"):
+                return "secret"
+            return None
+        tw = Taint(p, classify, SIGN_CALLS)
+        kind, payload = res
+        leaks = tw.walk(payload) if payload is not None else []
+        n += 1
+        if leaks:
+            F.append(_leak_scan_finding("u2f.authenticate.%s-depends-on-secret" % ("response" if kind == "Ok" else "error"),
+                                        "U2F authenticate's result depends on the stored credential outside the signing call: %s" % leaks[0], p, r"u2f\.authenticate"))
+    return F, n
+
+
+def check_secrecy_key_pair(fns, ctx):
+    """CoseKeyPair::from_secret_key: the public half depends on the secret key only through the public-key
+    derivation (`verifying_key`), never through its bytes"""
+    from .executor import Executor
+    cands = [f for n, f in fns.items() if n.endswith("::from_secret_key") and f.sig.rstrip(" {").endswith("-> CoseKeyPair")]
+    if len(cands) != 1:
+        raise Shape("cannot identify CoseKeyPair::from_secret_key (%d)" % len(cands))
+    lib = ctx.src["passkey-authenticator/src/lib.rs"]
+    pub_idx = field_index_any(lib, "CoseKeyPair", "public")
+    F = []
+    n = 0
+    for p in Executor(cands[0], follow_yields=False).run():
+        if not p.end or p.end[0] != "return":
+            if p.end and p.end[0] == "unsupported":
+                raise Shape("unsupported MIR in from_secret_key: %s" % p.end[1][:160])
+            continue
+        ret = p.end[1]
+        pub = None
+        if ret[0] in ("struct", "agg"):
+            fields = ret[2]
+            if ret[0] == "struct":
+                pub = dict(fields).get("public")
+            elif pub_idx < len(fields):
+                pub = fields[pub_idx]
+        if pub is None:
+            raise Shape("from_secret_key does not return a CoseKeyPair literal: %s" % tstr(ret)[:120])
+
+        def classify(t):
+            if t == ("in", "_1") or (t[0] in ("proj", "ref") and isinstance(t[1], str) and t[1].startswith("_1")) or \
+                    (t[0] == "proj" and t[1] == ("in", "_1")):
+                return "secret"
+            return None
+        tw = Taint(p, classify, ("::verifying_key",))
+        leaks = tw.walk(pub)
+        n += 1
+        if leaks:
+            F.append(_leak_scan_finding("keypair.public-half-depends-on-secret-bytes",
+                                        "the public COSE key built by CoseKeyPair::from_secret_key depends on the secret key outside the public-key derivation: %s" % leaks[0],
+                                        p, r"private-scalar"))
+    if n == 0:
+        raise Shape("from_secret_key has no returning path")
+    return F, n
+
+
+def check_secrecy_debug(types_fns, ctx):
+    """`<Passkey as Debug>::fmt` and the Passkey -> PublicKeyCredentialDescriptor conversions: no place that covers
+    the COSE key's parameters or the extension secrets is handed to a formatter / copied into the descriptor"""
+    from .executor import Executor
+    F = []
+    n = 0
+    targets = []
+    for name, f in types_fns.items():
+        if re.search(r"::fmt$", name) and re.match(r"fn [^(]*\(_1: &(?:passkey::)?Passkey, _2: &mut std::fmt::Formatter", f.sig):
+            targets.append(("debug", f))
+        if re.search(r"::from$", name) and re.match(r"fn [^(]*\(_1: &?(?:passkey::)?Passkey\) -> (?:\w+::)*PublicKeyCredentialDescriptor", f.sig):
+            targets.append(("descriptor", f))
+    if not any(k == "descriptor" for k, _ in targets):
+        raise Shape("no Passkey -> PublicKeyCredentialDescriptor conversion found in the MIR")
+    for kind, f in targets:
+        byref = "(_1: &" in f.sig
+        root = "_1^" if byref else "_1"
+        for p in Executor(f, follow_yields=False).run():
+            if p.end and p.end[0] == "unsupported":
+                raise Shape("unsupported MIR in %s: %s" % (f.name[:60], p.end[1][:160]))
+            n += 1
+            places = set()
+
+            def collect(t):
+                if isinstance(t, tuple) and t and t[0] in ("ref", "in") and isinstance(t[1], str):
+                    places.add(t[1])
+                if isinstance(t, tuple) and t and t[0] == "proj" and isinstance(t[1], tuple) and t[1] and t[1][0] == "in" and isinstance(t[1][1], str):
+                    places.add(t[1][1] + t[2])
+                    return
+                if isinstance(t, (tuple, list)):
+                    for x in t:
+                        collect(x)
+            for e in p.events:
+                if e["kind"] != "call":
+                    continue
+                for a in e["args"]:
+                    collect(a)
+                for pl, v in e.get("pointees", {}).values():
+                    places.add(pl)
+                    collect(v)
+            if p.end and p.end[0] == "return":
+                collect(p.end[1])
+            for pl in sorted(places):
+                if not pl.startswith(root):
+                    continue
+                rest = pl[len(root):]
+                if byref and rest.startswith("^"):
+                    rest = rest[1:]
+                if rest and rest[0] not in ".":
+                    continue
+                if _passkey_field_class(rest, ctx) == "secret":
+                    if kind == "debug":
+                        F.append(_leak_scan_finding("passkey.debug-shows-secret-field", "<Passkey as Debug>::fmt hands %s (a place covering the private key parameters or the "
+                                                    "extension secrets) to the formatter" % pl, p, r"passkey\.debug"))
+                    else:
+                        # a by-value conversion moves the whole credential in and drops the rest: only the returned fields matter
+                        if p.end and p.end[0] == "return" and pl in _places_of(p.end[1]):
+                            F.append(_leak_scan_finding("passkey.descriptor-carries-secret-field", "the Passkey -> PublicKeyCredentialDescriptor conversion copies %s" % pl,
+                                                        p, r"ctap2\.get_assertion|webauthn\.authenticate"))
+    return F, n
+
+
+def _places_of(t):
+    out = set()
+
+    def go(t):
+        if isinstance(t, tuple) and t and t[0] in ("ref", "in") and isinstance(t[1], str):
+            out.add(t[1])
+        if isinstance(t, tuple) and t and t[0] == "proj" and isinstance(t[1], tuple) and t[1] and t[1][0] == "in":
+            out.add(t[1][1] + t[2])
+            return
+        if isinstance(t, (tuple, list)):
+            for x in t:
+                go(x)
+    go(t)
+    return out
+
+
+# ---- C02 / C03 at the WebAuthn client: what Client::register / Client::authenticate hand to the
+# ---- authenticator and hand back, as data flow on every successful path ------------------------
+
+CLIENT_SOURCES = ("passkey-types/src/webauthn/assertion.rs", "passkey-types/src/webauthn/attestation.rs", "passkey-types/src/webauthn/common.rs")
+
+
+def _client_variants():
+    base = {"op": "client_ceremony"}
+    vs = [dict(base)]
+    vs.append(dict(base, origin="https://future.1password.com:8443"))
+    vs.append(dict(base, origin="https://login.future.1password.com", rp_id="1password.com"))
+    vs.append(dict(base, custom_hash=True))
+    vs.append(dict(base, params="empty"))
+    vs.append(dict(base, params="rs256_first"))
+    vs.append(dict(base, params="unknown_type_only"))
+    vs.append(dict(base, params="unknown_type_es256"))
+    vs.append(dict(base, params="rs256_only"))
+    vs.append(dict(base, allow_list=False))
+    vs.append(dict(base, user_verification="discouraged", uv_outcome=False))
+    vs.append(dict(base, counter=False))
+    return vs
+
+
+def _rp_view_bad(which):
+    """predicate over the native client_ceremony output: some relying-party check fails"""
+    def bad(o):
+        r = o["result"]
+        if not isinstance(r, dict) or which not in r or not isinstance(r[which], dict):
+            return False
+        d = r[which]
+        if "authenticate_err" in d:
+            return True
+        for k, v in d.items():
+            if k in ("alg_reported", "flags", "counter", "att_obj_members", "counter_zero", "alg_is_es256"):
+                continue
+            if k == "client_data":
+                if not (v["type_ok"] and v["challenge_ok"] and v["origin_ok"] and v["order_ok"]):
+                    return True
+                continue
+            if v is False or v is None:
+                return True
+        if which == "register" and d.get("att_obj_members") != 3:
+            return True
+        return False
+    return bad
+
+
+def derives_from_under(t, root, prefix, p, depth=0):
+    """t depends (through call arguments and pointees) on a projection of `root` at or below `prefix`"""
+    if depth > 8 or not isinstance(t, (tuple, list)):
+        return False
+    if isinstance(t, tuple) and t and t[0] == "proj" and t[1] == root and isinstance(t[2], str) and t[2].startswith(prefix):
+        return True
+    if isinstance(t, tuple) and t and t[0] == "ret" and len(t) >= 3 and isinstance(t[1], int) and t[1] < len(p.events):
+        ev = p.events[t[1]]
+        return any(derives_from_under(a, root, prefix, p, depth + 1) for a in ev.get("args", [])) or \
+            any(derives_from_under(v, root, prefix, p, depth + 1) for _, v in ev.get("pointees", {}).values())
+    return any(derives_from_under(x, root, prefix, p, depth + 1) for x in t if isinstance(x, (tuple, list)))
+
+
+def check_client(fns, ctx, kind):
+    """kind: 'register' (C02) | 'authenticate' (C03)"""
+    from .executor import Executor
+    pid = "C02" if kind == "register" else "C03"
+    cands = [n for n in fns if n.endswith("::%s::{closure#0}" % kind) and n.count("{closure#") == 1 and "passkey-client/src/lib.rs" in n]
+    if len(cands) != 1:
+        raise Shape("cannot identify Client::%s in the MIR (%d)" % (kind, len(cands)))
+    fn = fns[cands[0]]
+    ps = Executor(fn).run()
+    att = ctx.src["passkey-types/src/webauthn/attestation.rs"]
+    ass = ctx.src["passkey-types/src/webauthn/assertion.rs"]
+    if kind == "register":
+        opts = {f: field_index(att, "PublicKeyCredentialCreationOptions", f) for f in ("rp", "user", "challenge", "pub_key_cred_params", "exclude_credentials")}
+        rp_id_path = ".%d.%d" % (opts["rp"], field_index(att, "PublicKeyCredentialRpEntity", "id"))
+        resp_idx = {f: field_index(ctx.src["passkey-types/src/ctap2/make_credential.rs"], "Response", f) for f in ("auth_data",)}
+        want_ty, call_name = "Create", "make_credential"
+    else:
+        opts = {f: field_index(ass, "PublicKeyCredentialRequestOptions", f) for f in ("challenge", "rp_id", "allow_credentials", "user_verification")}
+        rp_id_path = ".%d" % opts["rp_id"]
+        resp_idx = {f: field_index(ctx.src["passkey-types/src/ctap2/get_assertion.rs"], "Response", f) for f in ("credential", "auth_data", "signature", "user")}
+        want_ty, call_name = "Get", "get_assertion"
+    F = []
+    sc = _client_variants()
+    bad = _rp_view_bad(kind)
+    n_ok = 0
+
+    def add(role, text, p):
+        F.append(Finding(pid, "client.%s.%s" % (kind, role), text, sc, bad, p))
+
+    def arg_root(suffix):
+        # the request is the coroutine's third captured argument: (proj (in _1.0) ^.2.0<suffix>)
+        return ("proj", ("in", "_1.0"), "^.2.0" + suffix)
+
+    for p in ps:
+        if p.end and p.end[0] == "unsupported":
+            raise Shape("unsupported MIR in Client::%s: %s" % (kind, p.end[1][:160]))
+        res = result_of(p)
+        if res is None or res[0] != "Ok":
+            continue
+        n_ok += 1
+        ev = [(i, e) for i, e in enumerate(p.events) if e["kind"] == "call"]
+        byname = lambda suffix: [(i, e) for i, e in ev if e["callee"].endswith(suffix)]
+        payload = res[1]
+        resp = payload
+        while isinstance(resp, tuple) and resp and resp[0] != "struct":
+            nxt = [x for x in resp[1:] if isinstance(x, tuple)]
+            if not nxt:
+                break
+            resp = nxt[0]
+        if not (isinstance(resp, tuple) and resp and resp[0] == "struct"):
+            raise Shape("Client::%s does not return a struct literal" % kind)
+        inner = _struct_field(resp, "response")
+        if inner is None or inner[0] != "struct":
+            raise Shape("Client::%s: no inner response literal" % kind)
+        # --- origin
+        oconv = [e for i, e in ev if e["callee"].endswith("Into::into") and chase(e["args"][0]) == ("proj", ("in", "_1.0"), "^.1")]
+        if not oconv:
+            raise Shape("Client::%s: the origin argument is not converted with Into" % kind)
+        origin_v = oconv[0]["ret"]
+        # --- collected client data
+        ser = byname("serde_json::to_string")
+        if len(ser) != 1:
+            raise Shape("Client::%s: %d serde_json::to_string calls" % (kind, len(ser)))
+        _, ccd = _pointee(ser[0][1], 0)
+        if ccd is None or ccd[0] != "struct" or "CollectedClientData" not in ccd[1]:
+            raise Shape("Client::%s: what is serialised is not a CollectedClientData literal" % kind)
+        ty = _struct_field(ccd, "ty")
+        if not re.search(r"(^|[: (])%s\)?$" % want_ty, tstr(ty)):
+            add("client-data-type", "the collected client data has type %s, not %s" % (tstr(ty)[:60], want_ty), p)
+        ch = _struct_field(ccd, "challenge")
+        ok_ch = False
+        if ch is not None and ch[0] == "ret" and str(ch[2]).endswith("base64url"):
+            _, cv = _pointee(p.events[ch[1]], 0)
+            ok_ch = cv is not None and chase(cv) == arg_root(".%d" % opts["challenge"])
+        if not ok_ch:
+            add("client-data-challenge", "the collected client data's challenge is not base64url(request.challenge): %s" % tstr(ch)[:80], p)
+        og = _struct_field(ccd, "origin")
+        ok_og = False
+        if og is not None and og[0] == "ret" and str(og[2]).endswith("ToString::to_string"):
+            _, ov = _pointee(p.events[og[1]], 0)
+            ok_og = ov is not None and ov == origin_v
+        if not ok_og:
+            add("client-data-origin", "the collected client data's origin is not the caller's origin rendered with Display: %s" % tstr(og)[:80], p)
+        co = _struct_field(ccd, "cross_origin")
+        if co is not None and not (co == ("ctor", "None", ()) or (co[0] == "ctor" and co[1] == "Some" and tstr(co[2][0]) in ("(const false)",))):
+            add("client-data-cross-origin", "crossOrigin is set to %s" % tstr(co)[:60], p)
+        jsn = [e for i, e in ev if e["callee"].endswith(("Result::unwrap", "Result::expect")) and e["args"] and e["args"][0] == ser[0][1]["ret"]]
+        if not jsn:
+            raise Shape("Client::%s: the serialised client data is not unwrapped" % kind)
+        json_v = jsn[0]["ret"]
+        # --- the hash handed to the authenticator
+        call = byname("%s::%s" % (call_name, call_name)) or byname("::" + call_name)
+        call = [(i, e) for i, e in call if len(e["args"]) >= 2 and isinstance(e["args"][1], tuple) and e["args"][1] and e["args"][1][0] == "struct"]
+        if len(call) != 1:
+            raise Shape("Client::%s: cannot identify the authenticator call (%d)" % (kind, len(call)))
+        ci, ce = call[0]
+        req = ce["args"][1]
+        h = chase(_struct_field(req, "client_data_hash"))
+        while isinstance(h, tuple) and h and h[0] == "conv":
+            h = chase(h[2])
+        ok_h = False
+        if h is not None and h[0] == "ret" and str(h[2]).endswith("Option::unwrap_or_else"):
+            he = p.events[h[1]]
+            src = chase(he["args"][0])
+            clo = chase(he["args"][1])
+            own = src[0] == "ret" and str(src[2]).endswith("ClientData::client_data_hash")
+            caps = clo[2] if clo[0] == "closure" and len(clo) > 2 else ()
+            cap_json = any(isinstance(c, tuple) and c and c[0] == "pointee" and c[2] == json_v for c in caps)
+            body_ok = False
+            cf = _closure_fn(fns, clo) if clo[0] == "closure" else None
+            if cf is not None:
+                for q in Executor(cf, follow_yields=False).run():
+                    if q.end and q.end[0] == "return":
+                        sh = [e for _, e in env_calls(q) if e["callee"].endswith("sha256")]
+                        def from_capture(t, d=0):
+                            if d > 8 or not isinstance(t, (tuple, list)):
+                                return False
+                            if isinstance(t, tuple) and t and t[0] in ("in", "ref") and isinstance(t[1], str) and t[1].startswith("_1"):
+                                return True
+                            if isinstance(t, tuple) and t and t[0] == "ret" and isinstance(t[1], int) and t[1] < len(q.events):
+                                e2 = q.events[t[1]]
+                                return any(from_capture(a, d + 1) for a in e2.get("args", [])) or any(from_capture(v, d + 1) for _, v in e2.get("pointees", {}).values())
+                            return any(from_capture(x, d + 1) for x in t if isinstance(x, (tuple, list)))
+                        body_ok = bool(sh) and derives_from(q.end[1], sh[0]["ret"], q) and from_capture(sh[0]["args"])
+            ok_h = own and cap_json and body_ok
+            why = "own=%s captured-json=%s closure-body=%s" % (own, cap_json, body_ok)
+        if not ok_h:
+            add("hash-source", "the client data hash given to the authenticator is not `client_data.client_data_hash()` or else SHA-256 of the serialised client data: %s" % (tstr(h)[:60] + " " + (why if "why" in dir() else "")), p)
+        # --- rp id
+        ad = byname("RpIdVerifier::assert_domain")
+        if len(ad) != 1:
+            raise Shape("Client::%s: %d assert_domain calls" % (kind, len(ad)))
+        _, ao = _pointee(ad[0][1], 1)
+        _, ar = _pointee(ad[0][1], 2)
+        if ao != origin_v:
+            add("rp-id-origin", "assert_domain is not given the caller's origin", p)
+        if ar is None or chase(ar) != arg_root(rp_id_path):
+            add("rp-id-request", "assert_domain is not given the request's RP ID (%s)" % (tstr(ar)[:60] if ar else "?"), p)
+        eff = ("proj", ad[0][1]["ret"], "@Ok.0")
+        if kind == "register":
+            rpf = _struct_field(req, "rp")
+            rid = _struct_field(rpf, "id") if rpf is not None else None
+        else:
+            rid = _struct_field(req, "rp_id")
+        rid_ok = rid is not None and rid[0] == "ret" and str(rid[2]).endswith(("ToOwned::to_owned", "ToString::to_string", "String::from")) and \
+            chase(p.events[rid[1]]["args"][0]) == eff
+        if not rid_ok:
+            add("rp-id-effective", "the RP ID given to the authenticator is not the effective RP ID returned by assert_domain: %s" % tstr(rid)[:80], p)
+        optf = _struct_field(req, "options")
+        if optf is None or tstr(_struct_field(optf, "up")) != "(const true)":
+            add("presence-not-required", "the authenticator request does not set up = true", p)
+        if kind == "authenticate":
+            al = _struct_field(req, "allow_list")
+            if al is None or chase(al) != arg_root(".%d" % opts["allow_credentials"]):
+                add("allow-list", "the allow list given to the authenticator is not the request's allowCredentials: %s" % tstr(al)[:80], p)
+        else:
+            for f, src in (("user", "user"), ("exclude_list", "exclude_credentials")):
+                v = _struct_field(req, f)
+                if v is None or chase(v) != arg_root(".%d" % opts[src]):
+                    add("request-" + f, "make_credential's %s is not the request's %s: %s" % (f, src, tstr(v)[:80]), p)
+            pp = chase(_struct_field(req, "pub_key_cred_params"))
+            ok_pp = pp == arg_root(".%d" % opts["pub_key_cred_params"]) or (pp[0] == "ret" and str(pp[2]).endswith("default_algorithms"))
+            if ok_pp and pp[0] == "ret":
+                # the default list only when the request's list is empty
+                ok_pp = any("Vec::is_empty" in k and ("^.2.0.%d" % opts["pub_key_cred_params"]) in tstr(p.events[int(re.search(r"\(ret (\d+) Vec::is_empty", k).group(1))].get("pointees", {}).get(0, ("", ""))[1])
+                            for k, op, v in p.conds if re.search(r"\(ret (\d+) Vec::is_empty", k))
+            if not ok_pp:
+                add("algorithm-list", "pubKeyCredParams given to the authenticator is neither the request's list nor the default list for an empty one: %s" % tstr(pp)[:80], p)
+        # --- what is handed back
+        me = [(i, e) for i, e in ev if i > ci and e["callee"].endswith("Result::map_err") and chase(e["args"][0]) == ("await", ce["ret"])]
+        if len(me) != 1:
+            raise Shape("Client::%s: the authenticator's answer is not passed through one map_err" % kind)
+        R = me[0][1]["ret"]
+        cdj = _struct_field(inner, "client_data_json")
+        if cdj is None or not contains(cdj, json_v):
+            add("returned-client-data", "the returned clientDataJSON is not the serialised client data that was hashed", p)
+        adv = _struct_field(inner, "authenticator_data")
+        t = adv
+        while isinstance(t, tuple) and t and t[0] == "conv":
+            t = t[2]
+        ok_ad = False
+        if t is not None and t[0] == "ret" and str(t[2]).endswith("AuthenticatorData::to_vec"):
+            _, av = _pointee(p.events[t[1]], 0)
+            ok_ad = av == ("proj", R, "@Ok.0.%d" % resp_idx["auth_data"])
+        if not ok_ad:
+            add("returned-authenticator-data", "the returned authenticator data is not the serialisation of the authenticator's auth_data: %s" % tstr(adv)[:80], p)
+        rid_v = _struct_field(resp, "id")
+        raw_v = _struct_field(resp, "raw_id")
+
+        def bytes_source(t):
+            """the byte string a base64url(..) / to_vec(..).into() term is computed from"""
+            while isinstance(t, tuple) and t and t[0] == "conv":
+                t = t[2]
+            if not (isinstance(t, tuple) and t and t[0] == "ret"):
+                return None
+            e = p.events[t[1]]
+            if not e["callee"].endswith(("base64url", "slice::to_vec", "to_vec")):
+                return None
+            a = e["args"][0]
+            _, v = _pointee(e, 0)
+            return chase(v) if v is not None else chase(a)
+        def norm(t):
+            # two calls of the same pure accessor on the same value are the same bytes
+            if isinstance(t, tuple) and t and t[0] == "ret" and str(t[2]).endswith("credential_id"):
+                return ("call", t[2], tuple(chase(a) for a in p.events[t[1]]["args"]))
+            return t
+        s_id, s_raw = bytes_source(rid_v), bytes_source(raw_v)
+        n_id, n_raw = norm(s_id), norm(s_raw)
+        if rid_v is None or not (rid_v[0] == "ret" and str(rid_v[2]).endswith("base64url")) or s_id is None or n_id != n_raw:
+            add("id-raw-id", "id is not base64url of the bytes returned as rawId (%s vs %s)" % (tstr(s_id)[:50], tstr(s_raw)[:50]), p)
+        if kind == "authenticate":
+            want_src = None
+            if s_raw is not None and s_raw[0] == "proj" and s_raw[1][0] == "ret" and str(s_raw[1][2]).endswith(("Option::unwrap", "Option::expect")):
+                want_src = chase(p.events[s_raw[1][1]]["args"][0])
+            if want_src != ("proj", R, "@Ok.0.%d" % resp_idx["credential"]):
+                add("raw-id-source", "rawId is not the id of the credential named in the authenticator's answer (%s)" % tstr(s_raw)[:80], p)
+            sg = _struct_field(inner, "signature")
+            if sg is None or chase(sg) != ("proj", R, "@Ok.0.%d" % resp_idx["signature"]):
+                add("returned-signature", "the returned signature is not the authenticator's signature: %s" % tstr(sg)[:80], p)
+            uh = _struct_field(inner, "user_handle")
+            ok_uh = uh is not None and uh[0] == "ret" and str(uh[2]).endswith("Option::map") and chase(p.events[uh[1]]["args"][0]) == ("proj", R, "@Ok.0.%d" % resp_idx["user"])
+            if not ok_uh:
+                add("returned-user-handle", "the returned user handle does not come from the authenticator's answer: %s" % tstr(uh)[:80], p)
+        else:
+            authd = ("proj", R, "@Ok.0.%d" % resp_idx["auth_data"])
+            acd_src = None
+            if s_raw is not None and s_raw[0] == "ret" and str(s_raw[2]).endswith("credential_id"):
+                acd_src = p.events[s_raw[1]]["args"][0]
+            if acd_src is None or not derives_from_under(acd_src, R, authd[2], p):
+                add("raw-id-source", "rawId is not the credential id inside the returned authenticator data's attested credential data (%s)" % tstr(s_raw)[:80], p)
+            ao_v = _struct_field(inner, "attestation_object")
+            t = ao_v
+            while isinstance(t, tuple) and t and t[0] == "conv":
+                t = t[2]
+            wr = [e for _, e in ev if e["callee"].endswith("into_writer") and _pointee(e, 1)[1] == t]
+            if t is None or len(wr) != 1 or not derives_from_under(_pointee(wr[0], 0)[1], R, authd[2], p):
+                add("attestation-object", "the attestation object is not written from a value built from the authenticator's auth_data", p)
+            pk = _struct_field(inner, "public_key")
+            der = [e for _, e in ev if e["callee"].endswith("public_key_der_from_cose_key")]
+            if pk is None or len(der) != 1 or not derives_from(pk, der[0]["ret"], p) or not derives_from_under(_pointee(der[0], 0)[1], R, authd[2], p):
+                add("public-key-der", "the returned DER public key is not converted from the COSE key inside the returned authenticator data", p)
+            alg = _struct_field(inner, "public_key_algorithm")
+            if alg is None or not derives_from_under(alg, R, authd[2], p):
+                add("public-key-algorithm", "the reported algorithm does not come from the COSE key inside the returned authenticator data: %s" % tstr(alg)[:80], p)
+    if n_ok == 0:
+        raise Shape("Client::%s has no successful path" % kind)
+    return F, n_ok, len(ps), cands[0]
+
+
+def check_origin_rendering(fns):
+    """<Origin as Display>::fmt, Web variant: what is written depends on scheme, host AND port of the URL
+    (one accessor that covers all three - as_str / origin - or one for each), so that the `origin` of the client
+    data is the caller's origin, not a part of it"""
+    from .executor import Executor
+    cands = [f for n, f in fns.items() if n.endswith("::fmt") and re.match(r"fn [^(]*\(_1: &(?:\w+::)*Origin<", f.sig)]
+    if len(cands) != 1:
+        raise Shape("cannot identify <Origin as Display>::fmt (%d)" % len(cands))
+    ps = Executor(cands[0], follow_yields=False).run()
+    F = []
+    n = 0
+    for p in ps:
+        if p.end and p.end[0] == "unsupported":
+            raise Shape("unsupported MIR in <Origin as Display>::fmt: %s" % p.end[1][:160])
+        if not any("@Web" in tstr(e.get("args", "")) + tstr(list(e.get("pointees", {}).values())) for e in p.events if e["kind"] == "call"):
+            continue
+        n += 1
+        wr = [e for _, e in env_calls(p) if e["callee"].endswith(("write_fmt", "write_str", "Formatter::write_fmt", "Display::fmt", "Formatter::pad"))]
+        if not wr:
+            raise Shape("<Origin as Display>::fmt (Web): no write call found")
+        used = set()
+
+        def walk(t, d=0):
+            if d > 12 or not isinstance(t, (tuple, list)):
+                return
+            if isinstance(t, tuple) and t and t[0] == "ret" and isinstance(t[1], int) and t[1] < len(p.events):
+                e = p.events[t[1]]
+                m = re.search(r"Url::(\w+)$", e["callee"])
+                if m:
+                    used.add(m.group(1))
+                for a in e.get("args", []):
+                    walk(a, d + 1)
+                for _, v in e.get("pointees", {}).values():
+                    walk(v, d + 1)
+                for v in getattr(p, "heap", {}).get(t[1], ()):
+                    walk(v, d + 1)
+                return
+            for x in t:
+                if isinstance(x, (tuple, list)):
+                    walk(x, d + 1)
+        for e in wr:
+            walk(e["args"])
+            for _, v in e.get("pointees", {}).values():
+                walk(v)
+        whole = used & {"as_str", "origin", "as_ref", "to_string"}
+        parts_ok = bool(used & {"scheme"}) and bool(used & {"host_str", "host", "domain"}) and bool(used & {"port", "port_or_known_default"})
+        if not whole and not parts_ok:
+            sc = [{"op": "client_ceremony", "origin": "https://future.1password.com:8443"}, {"op": "client_ceremony", "origin": "http://localhost:3000", "rp_id": "localhost"}]
+            for pid, which in (("C02", "register"), ("C03", "authenticate")):
+                F.append(Finding(pid, "client.origin-rendering-drops-part", "<Origin as Display>::fmt (Web) writes a string that depends only on Url::{%s}: scheme, host and port "
+                                 "are not all covered" % ", ".join(sorted(used)), sc, _rp_view_bad(which), p))
+    if n == 0:
+        raise Shape("<Origin as Display>::fmt has no Web path")
+    return F, n
+
+
+def check_secrecy_extensions(fns, ctx):
+    """the extension processing that the ceremonies treat as declassifying: its own outputs depend on the stored PRF
+    secrets only through hmac_sha256 (modularly: calculate_hmac_secret <- make_prf / get_prf <- make_extensions / get_extensions)"""
+    from .executor import Executor
+    F = []
+    n = 0
+    ext_src = ctx.src["passkey-authenticator/src/authenticator/extensions.rs"]
+    cred_idx = field_index_any(ext_src, "MakeExtensionOutputs", "credential")
+
+    def rooted(u, param):
+        name = None
+        if u[0] in ("in", "ref") and isinstance(u[1], str):
+            name = u[1]
+        elif u[0] == "proj" and isinstance(u[1], tuple) and u[1] and u[1][0] == "in" and isinstance(u[1][1], str):
+            name = u[1][1] + u[2]
+        if name is not None and re.match(r"^%s($|[.^@\[])" % re.escape(param), name):
+            return name[len(param):]
+        return None
+
+    def run(fn_suffix, classify, declass, what, pattern, select=None):
+        nonlocal n
+        cands = [f for nme, f in fns.items() if (nme.endswith(fn_suffix) or nme == fn_suffix.strip(":")) and "{closure" not in nme]
+        if len(cands) != 1:
+            raise Shape("cannot identify %s in the MIR (%d)" % (fn_suffix, len(cands)))
+        for p in Executor(cands[0], follow_yields=False).run():
+            if p.end and p.end[0] == "unsupported":
+                raise Shape("unsupported MIR in %s: %s" % (fn_suffix, p.end[1][:160]))
+            if not p.end or p.end[0] != "return":
+                continue
+            n += 1
+            ret = p.end[1]
+            tw = Taint(p, classify, declass, _fields_of(ctx), fns)
+            targets = select(ret) if select else [ret]
+            for t in targets:
+                leaks = tw.walk(t)
+                if leaks:
+                    F.append(_leak_scan_finding("extensions.%s-depends-on-secret" % fn_suffix.strip(":"), "%s: %s" % (what, leaks[0][:260]), p, pattern))
+                    break
+
+    secret_param = lambda param: (lambda u: "secret" if rooted(u, param) is not None else None)
+    run("::calculate_hmac_secret", secret_param("_1"), ("hmac_sha256",),
+        "calculate_hmac_secret's result depends on the stored secrets outside hmac_sha256", r"prf-secret")
+    run("::make_prf", secret_param("_2"), ("calculate_hmac_secret", "hmac_sha256"),
+        "make_prf's result depends on the stored secrets outside calculate_hmac_secret", r"prf-secret")
+    run("::get_prf", secret_param("_3"), ("calculate_hmac_secret", "hmac_sha256"),
+        "get_prf's result depends on the stored secrets outside calculate_hmac_secret", r"prf-secret")
+
+    def cls_get(u):
+        rest = rooted(u, "_2")
+        if rest is None:
+            return None
+        if rest.startswith("^"):
+            rest = rest[1:]
+        return _passkey_field_class(rest, ctx)
+    run("::get_extensions", cls_get, ("::get_prf",), "get_extensions' result depends on the credential's secrets outside get_prf", r"prf-secret|private-scalar")
+
+    def cls_make(u):
+        if u[0] == "ret" and str(u[2]).endswith(("make_passkey_extensions", "make_hmac_secret")):
+            return "secret"
+        return None
+
+    def only_outputs(ret):
+        # Ok(MakeExtensionOutputs { signed, unsigned, credential }): the credential part is the secret's home
+        t = ret
+        while isinstance(t, tuple) and t and t[0] == "ctor" and t[2]:
+            t = t[2][0]
+        if isinstance(t, tuple) and t and t[0] == "struct":
+            return [v for k, v in t[2] if k != "credential"]
+        if isinstance(t, tuple) and t and t[0] == "errof":
+            return []
+        return [ret]
+    run("::make_extensions", cls_make, ("::make_prf",), "make_extensions' signed / unsigned outputs depend on the new secrets outside make_prf", r"prf-secret", only_outputs)
+    if n == 0:
+        raise Shape("no returning path in the extension functions")
+    return F, n
